@@ -352,6 +352,7 @@ MEM_STATIC size_t BIT_lookBitsFast(const BIT_DStream_t* bitD, U32 nbBits)
 FORCE_INLINE_TEMPLATE void BIT_skipBits(BIT_DStream_t* bitD, U32 nbBits)
 {
     bitD->bitsConsumed += nbBits;
+    ZSTD_VERIF_GHOST(ZSTD_VERIF_BITS_CONSUMED(bitD->bitsConsumed);)
 }
 
 /*! BIT_readBits() :
